@@ -23,10 +23,10 @@ try:
     res["ran"]["suite_plus_demo_without_change"] = "PASS" if "ok " in out0 and "FAIL" not in out0 else "FAIL: " + out0[-300:]
     rc, out = run(f"git apply {os.path.abspath(os.path.join(src,'patch.diff'))}", cwd=wt)
     res["ran"]["patch_applies"] = (rc == 0)
-    os.rename(os.path.join(wt, "test", "zz_seed_demo_test.go"), "/tmp/scratch/zz_seed_demo_test.go.keep")
+    os.rename(os.path.join(wt, "test", "zz_seed_demo_test.go"), f"/tmp/scratch/zz_seed_demo_{sid}.keep")
     rcb, outb = run("go build ./... && go test -vet=off -count=1 ./... 2>&1 | tail -5", cwd=wt)
     res["ran"]["existing_suite_with_change"] = "PASS" if "ok " in outb and "FAIL" not in outb else "FAIL: " + outb[-300:]
-    os.rename("/tmp/scratch/zz_seed_demo_test.go.keep", os.path.join(wt, "test", "zz_seed_demo_test.go"))
+    os.rename(f"/tmp/scratch/zz_seed_demo_{sid}.keep", os.path.join(wt, "test", "zz_seed_demo_test.go"))
     rc1, out1 = run("go test -vet=off -count=1 ./test/ 2>&1 | grep -v '^ok\\|^PASS' | head -8", cwd=wt)
     res["ran"]["demo_with_change"] = "FAIL (as required): " + out1.strip()[:400] if "FAIL" in out1 else "PASS (demo does not detect the change!)"
 finally:
